@@ -422,6 +422,9 @@ func (p *Path) unop(instr *ssa.UnOp, x Value) Value {
 	case token.ARROW:
 		return p.chanRecv(x, instr.CommaOk, instr)
 	case token.MUL:
+		if se, isSym := x.(*SymElem); isSym {
+			return p.selectElem(se)
+		}
 		ptr, ok := x.(*Value)
 		if !ok {
 			if pz, isP := x.(Poison); isP {
@@ -640,4 +643,80 @@ func (p *Path) intResize(x *Term, tsrc, tdst types.Type) *Term {
 		}
 		return p.ts.Zext(x, wd)
 	}
+}
+
+// SymElem is the address of arr[idx] for a symbolic idx into an array of
+// scalars (a lookup table). Only loads are supported: the value is the if-then-else
+// chain over the elements; the bounds check has been made when it was formed.
+type SymElem struct {
+	arr []Value
+	idx *Term
+	typ types.Type
+}
+
+func (p *Path) selectElem(se *SymElem) Value {
+	ts := p.ts
+	n := len(se.arr)
+	// run-length groups of identical (interned) element terms: lookup tables are
+	// mostly runs, so the select becomes a short chain of range tests
+	type run struct {
+		lo, hi int
+		v      *Term
+	}
+	var runs []run
+	for i := 0; i < n; i++ {
+		v := se.arr[i].(*Term)
+		if len(runs) > 0 && runs[len(runs)-1].v == v {
+			runs[len(runs)-1].hi = i
+			continue
+		}
+		runs = append(runs, run{i, i, v})
+	}
+	k := func(i int) *Term {
+		if p.lia {
+			return ts.Int64(int64(i))
+		}
+		return p.intConst(int64(i), se.typ)
+	}
+	res := runs[len(runs)-1].v
+	for j := len(runs) - 2; j >= 0; j-- {
+		r := runs[j]
+		var c *Term
+		if r.lo == r.hi {
+			c = ts.Eq(se.idx, k(r.lo))
+		} else if p.lia {
+			c = ts.And(ts.ILe(k(r.lo), se.idx), ts.ILe(se.idx, k(r.hi)))
+		} else {
+			c = ts.And(ts.Not(p.intLtU(se.idx, k(r.lo))), ts.Not(p.intLtU(k(r.hi), se.idx)))
+		}
+		res = ts.Ite(c, r.v, res)
+	}
+	return res
+}
+
+// symElemAddr forms &arr[idx] for symbolic idx when arr holds only scalar terms;
+// returns nil when that is not the case (caller falls back to concretisation).
+func (p *Path) symElemAddr(arr []Value, idx *Term, t types.Type, pos token.Pos) *SymElem {
+	if len(arr) == 0 || len(arr) > 1024 {
+		return nil
+	}
+	for _, e := range arr {
+		if _, ok := e.(*Term); !ok {
+			return nil
+		}
+	}
+	// bounds: fork on 0 <= idx < n
+	n := int64(len(arr))
+	var in *Term
+	if w, signed, ok := intInfo(t); ok && !signed && w < 63 && n >= int64(1)<<uint(w) {
+		in = p.ts.Bool(true) // every value of the index type is in range (e.g. table[byte])
+	} else if p.lia {
+		in = p.ts.And(p.ts.ILe(p.ts.Int64(0), idx), p.ts.ILt(idx, p.ts.Int64(n)))
+	} else {
+		in = p.intLtU(idx, p.intConst(n, t))
+	}
+	if !p.branch(in, "index-in-range") {
+		p.targetPanicStr(fmt.Sprintf("runtime error: index out of range with length %d", n))
+	}
+	return &SymElem{arr: arr, idx: idx, typ: t}
 }
